@@ -33,6 +33,8 @@ pub struct Weights {
     pub side: u32,
     /// further solo groups, half of them with a relay list SQLite cannot store
     pub solo_group: u32,
+    /// bursts of application messages by one member
+    pub burst: u32,
 }
 
 impl Default for Weights {
@@ -62,6 +64,7 @@ impl Default for Weights {
             hostile: 0,
             side: 0,
             solo_group: 0,
+            burst: 0,
         }
     }
 }
@@ -164,6 +167,7 @@ pub fn op_strategy(w: &Weights) -> BoxedStrategy<Op> {
         use crate::rogue::{RogueCommit as C, RogueProposal as P};
         let ck = prop::sample::select(vec![
             C::Add, C::Remove, C::GceRename, C::GceSelfPromote, C::SelfUpdate, C::ForeignIdentity, C::Mixed, C::PendingByRef, C::Empty,
+            C::MalformedIdentity(0), C::MalformedIdentity(1), C::MalformedIdentity(2), C::MalformedIdentity(3),
         ]);
         v.push((
             w.rogue_commit,
@@ -210,6 +214,7 @@ pub fn op_strategy(w: &Weights) -> BoxedStrategy<Op> {
         use crate::world::SideOp as S;
         let so = prop_oneof![
             4 => (any::<u16>(), ts.clone()).prop_map(|(m, ts)| S::Msg { m, ts }),
+            3 => any::<u16>().prop_map(|m| S::CrossPost { m }),
             3 => (0u8..4, ts.clone()).prop_map(|(kind, ts)| S::Commit { kind, ts }),
             2 => (any::<u16>(), any::<u16>()).prop_map(|(m, sel)| S::ToNonMember { m, sel }),
             3 => (any::<u16>(), any::<u16>()).prop_map(|(v, sel)| S::TaggedAsMain { v, sel }),
@@ -218,6 +223,7 @@ pub fn op_strategy(w: &Weights) -> BoxedStrategy<Op> {
         ];
         v.push((w.side, so.prop_map(Op::Side).boxed()));
     }
+    v.push((w.burst, (any::<u16>(), 3u8..14).prop_map(|(m, n)| Op::Burst { m, n }).boxed()));
     v.push((w.solo_group, (any::<u16>(), any::<bool>()).prop_map(|(m, collide)| Op::SoloGroup { m, collide }).boxed()));
     let v: Vec<(u32, BoxedStrategy<Op>)> = v.into_iter().filter(|(w, _)| *w > 0).collect();
     proptest::strategy::Union::new_weighted(v).boxed()
@@ -315,4 +321,39 @@ pub fn plan_strategy_with(
     len: std::ops::Range<usize>,
 ) -> BoxedStrategy<Plan> {
     plan_strategy(o, w, len)
+}
+
+/// Directed prelude shared by C04 and C08: three clients in both groups; a message sent on the
+/// branch that will lose a commit race is also posted into the second group (same message id
+/// there); then the better commit arrives and the main group rolls back.
+pub fn crosspost_rollback_prelude(p: &mut Plan, sql: bool) {
+    use crate::world::{SideOp, BackendKind};
+    p.setup.members = 3;
+    p.setup.admin_mask = 1;
+    p.setup.regime = Regime::Causal;
+    p.setup.side = 0b0000_0111;
+    p.setup.cfg.retention = p.setup.cfg.retention.max(2);
+    if sql {
+        p.setup.backends = vec![BackendKind::Sql; 10];
+    }
+    // local operations pick among the active clients c0, c1, c2; deliveries among all actors
+    // (three members and the spares)
+    let n_act = 3 + p.setup.spares as u32;
+    let act = |i: u32| (((i << 16) / 3) + 1) as u16;
+    let mem = |i: u32| (((i << 16) / n_act) + 1) as u16;
+    let pre = vec![
+        Op::Msg { m: act(0), kind: 0, at: 0, tag: 0 },
+        Op::SelfUpdate { m: act(0), ts: 3, apply: Apply::Echo },
+        Op::SelfEcho { m: mem(0) },
+        Op::CatchUp { m: mem(2) },
+        Op::Msg { m: act(0), kind: 0, at: 1, tag: 1 },
+        Op::CatchUp { m: mem(2) },
+        Op::Side(SideOp::CrossPost { m: 0 }),
+        Op::SelfUpdate { m: act(1), ts: 1, apply: Apply::Echo },
+        Op::CatchUp { m: mem(2) },
+    ];
+    p.ops.truncate(25);
+    let tail = std::mem::take(&mut p.ops);
+    p.ops = pre;
+    p.ops.extend(tail);
 }
